@@ -954,6 +954,15 @@ func (e *SpecEnv) modTargets(x Expr) ([]modTarget, error) {
 	d := e.vc.d
 	switch n := x.(type) {
 	case *ESel:
+		if id, ok := n.X.(*EIdent); ok {
+			if _, isVar := e.vars[id.Name]; !isVar {
+				if p := e.vc.g.importedPkg(e.pkg, id.Name); p != nil {
+					if _, ok := e.ghostGlobal(p.Path(), n.Sel); ok {
+						return []modTarget{{heap: ghostGlobalHeap(p.Path(), n.Sel)}}, nil
+					}
+				}
+			}
+		}
 		base, err := e.expr(n.X)
 		if err != nil {
 			return nil, err
